@@ -106,7 +106,10 @@ def write_html(doc: dict, xhtml: bool = False) -> bytes:
     return f"<!DOCTYPE html><html><head>{head}</head><body>{body}</body></html>".encode()
 
 
-def write_epub(book: dict, opf_dir: str = "OEBPS") -> bytes:
+CHAPTER_EXT = {1: ".htm", 2: ".html", 3: ".html", 4: ".htm", 8: ".htm"}      # (vary_ext) otherwise .xhtml / .html / .htm by n % 3
+
+
+def write_epub(book: dict, opf_dir: str = "OEBPS", vary_ext: bool = False) -> bytes:
     """book = {"chapters": [doc ..], "props": {...}, "images": [{"part": "OEBPS/img/a.png", "data": b, "href": "img/a.png",
     "media": "image/png"}], "nonlinear": [..]}"""
     p = book.get("props") or {}
@@ -120,11 +123,13 @@ def write_epub(book: dict, opf_dir: str = "OEBPS") -> bytes:
                 man = f'<item id="ch{n}" href="page{n}.svg" media-type="image/svg+xml"/>' + man
             spine += f'<itemref idref="ch{n}"/>'
             continue
-        files[f"{pre}ch{n}.xhtml"] = (ch["raw_xhtml"].encode() if isinstance(ch, dict) and "raw_xhtml" in ch
-                                      else write_html(ch, xhtml=True))
+        # chapter files are named .xhtml, .html or .htm (vary_ext: the document suite; other callers address ch1.xhtml)
+        ext = CHAPTER_EXT.get(n, (".xhtml", ".html", ".htm")[n % 3]) if vary_ext else ".xhtml"
+        files[f"{pre}ch{n}{ext}"] = (ch["raw_xhtml"].encode() if isinstance(ch, dict) and "raw_xhtml" in ch
+                                     else write_html(ch, xhtml=True))
         # old converters declare their (X)HTML chapters with other media types (OEB 1.x, plain XML): chapters all the same
         mt = {1: "text/x-oeb1-document", 3: "application/xml"}.get(n % 5, "application/xhtml+xml")
-        man = f'<item id="ch{n}" href="ch{n}.xhtml" media-type="{mt}"/>' + man   # manifest order != spine order
+        man = f'<item id="ch{n}" href="ch{n}{ext}" media-type="{mt}"/>' + man   # manifest order != spine order
         # every third chapter is auxiliary content (linear="no": answers, notes): part of the book all the same
         spine += f'<itemref idref="ch{n}"' + (' linear="no"' if n % 3 == 2 else (' linear="yes"' if n % 3 == 0 else "")) + "/>"
     for k, img in enumerate(book.get("images") or [], start=1):
